@@ -262,7 +262,11 @@ def gen_nonlinear(r, sp, names, positive_names, params=None):
     n = r.choice(names)
     leaf = ref_of(sp, n)
     k = r.random()
-    if k < 0.25:
+    if r.random() < 0.12:
+        # a pole or a domain edge inside the box: solvers step onto it and terminate abnormally
+        extra = r.choice([["/", ["num", r.choice([1.0, -2.0])], leaf], ["fn", "log", leaf], ["fn", "sqrt", leaf],
+                          ["/", ["num", 1.0], ["-", leaf, ["num", 0.5]]]])
+    elif k < 0.25:
         extra = ["fn", "exp", ["*", ["num", 0.5], leaf]]
     elif k < 0.45:
         extra = ["**", leaf, ["num", 4]]
@@ -323,6 +327,10 @@ def gen_nl_con(r, sp, names):
     k = r.random()
     a = ref_of(sp, r.choice(names))
     b = ref_of(sp, r.choice(names))
+    if r.random() < 0.3:
+        # a constraint that is undefined (NaN) or infinite on part of the box
+        f = r.choice(["log", "sqrt", "log"])
+        return {"k": "s", "lhs": ["fn", f, a], "sense": ">=", "rhs": ["num", r.choice([-5.0, -1.0, 0.0, 0.5])]}
     if k < 0.4:
         e = ["+", ["**", a, ["num", 2]], ["**", b, ["num", 2]]]
         return {"k": "s", "lhs": e, "sense": "<=", "rhs": ["num", r.choice([1.0, 4.0, 9.0, 25.0])]}
@@ -361,6 +369,15 @@ def gen_pool(r, kinds=("lin", "quad", "nl"), layout=None, int_frac=0.0, nobj=5, 
         kind = kinds[i % len(kinds)] if i < len(kinds) else r.choice(kinds)
         if kind == "lin":
             e = render_linear(r, sp, lin_terms(r, core, 1, 4, sp), r.choice([0.0, 0.0, 5.0, -2.5]), deep=deep if r.random() < 0.5 else 0)
+        elif kind == "pole":
+            # objective with a pole / domain edge that the box does not exclude (1/x + x on [-1, 3])
+            at = S.elem_attrs(S.new_shadow(sp))
+            strad = [c for c in core if at[c][0] is not None and at[c][1] is not None and at[c][0] < 0 < at[c][1]]
+            n = r.choice(strad or core)
+            leaf = ref_of(sp, n)
+            sing = r.choice([["/", ["num", r.choice([1.0, 2.0, -1.0])], leaf], ["neg", ["fn", "log", leaf]], ["/", ["num", 1.0], ["-", leaf, ["num", 0.5]]]])
+            rest = render_linear(r, sp, lin_terms(r, core, 1, 2), 0.0)
+            e = ["+", sing, rest] if r.random() < 0.6 else ["+", sing, leaf]
         elif kind == "quad":
             e = gen_vecquad(r, sp) if r.random() < 0.35 else None
             if e is None:
@@ -1498,7 +1515,31 @@ def gen_c06_bounds(r):
     return {"knobs": dict(DEFAULT_KNOBS), "ops": ops}
 
 
+def gen_c06_scaling(r):
+    """Badly scaled LPs: a coefficient below HiGHS' 1e-9 matrix threshold times a huge variable
+    decides feasibility; the solver's answer has to be confirmed against the model itself."""
+    from .world import DEFAULT_KNOBS
+
+    big = r.choice([1e10, 5e10, 1e11])
+    tiny = r.choice([1e-10, 2e-10, 5e-11])
+    need = r.choice([0.9, 0.5, 0.99])
+    sp = {"name": "sc", "vars": [{"kind": "scalar", "name": "x", "lb": big, "ub": 2 * big, "domain": "continuous"},
+                                 {"kind": "scalar", "name": "y", "lb": 0.0, "ub": 1.0, "domain": "continuous"}],
+          "params": [], "exprs": {"o": ["var", "y"], "o2": ["+", ["var", "y"], ["*", ["num", 1e-12], ["var", "x"]]]},
+          "cons": {"c": {"k": "s", "lhs": ["-", ["var", "y"], ["*", ["num", tiny], ["var", "x"]]], "sense": ">=", "rhs": ["num", need]},
+                   "d": {"k": "s", "lhs": ["+", ["var", "y"], ["*", ["num", tiny], ["var", "x"]]], "sense": "<=", "rhs": ["num", 0.5]}},
+          "expr_order": ["o", "o2"], "con_order": ["c", "d"]}
+    ops = [["new_model", 0, sp], ["minimize", 0, r.choice(["o", "o2"])], ["subject_to", 0, r.choice(["c", "d"])]]
+    if r.random() < 0.3:
+        ops.append(["subject_to", 0, r.choice(["c", "d"])])
+    for _ in range(r.choice([1, 2])):
+        ops.append(["solve", 0, {"method": r.choice(["auto", "linprog", "highs-ds", "highs-ipm", "highs", "SLSQP"])}])
+    return {"knobs": dict(DEFAULT_KNOBS), "ops": ops}
+
+
 def gen_c06(r, tier="quick", c07=False):
+    if not c07 and r.random() < 0.03:
+        return gen_c06_scaling(r)
     if not c07 and r.random() < 0.15:
         return gen_c06_param(r)
     if not c07 and r.random() < 0.07:
@@ -1506,7 +1547,7 @@ def gen_c06(r, tier="quick", c07=False):
     if r.random() < 0.06:
         return gen_single_source(r)
     knobs = gen_knobs(r, 0.7)
-    kinds = r.choice([("lin",), ("lin", "quad"), ("quad", "nl"), ("lin", "quad", "nl")])
+    kinds = r.choice([("lin",), ("lin", "quad"), ("quad", "nl"), ("lin", "quad", "nl"), ("pole", "nl", "pole")])
     parametric = r.random() < 0.25
     if parametric:
         if r.random() < 0.5:
